@@ -31,7 +31,8 @@ FACTORS = {
              # values whose transform is exactly 0 (falsy in Python): log 1
              "coalescent_init_one", "rate_init_one", "brlens_init_one", "root_height_init_unit",
              # the documented NON-numeric initialisation modes
-             "heights_init_regression", "rate_init_regression", "coalescent_init_tree", "coalescent_init_constant"],
+             "heights_init_regression", "rate_init_regression", "coalescent_init_tree", "coalescent_init_constant",
+             "brlens_init_tree"],
 }
 
 # the model-defining core enumerated in full in the thorough tier
@@ -40,7 +41,8 @@ CORE = ["cmd", "model", "clock", "heights", "treeprior"]
 
 def to_argv(cfg, data):
     ymd = cfg.get("_data") == "ymd"
-    aln = "aln_ymd.fa" if ymd else ("aln_codon.fa" if cfg.get("model") == "MG94" else "aln.fa")
+    aln = "aln_ymd.fa" if ymd else ("aln_codon.fa" if cfg.get("model") == "MG94" else
+                                    "aln_rich.fa" if cfg.get("_data") == "rich" else "aln.fa")
     a = [cfg["cmd"]] + ([] if cfg.get("_poisson") else ["-i", str(data / aln)])
     clock = cfg.get("clock")
     regression = cfg.get("init") in ("heights_init_regression", "rate_init_regression")
@@ -105,6 +107,8 @@ def to_argv(cfg, data):
         a += ["--heights_init", "tree"]
     elif init == "brlens_init":
         a += ["--brlens_init", "0.05"]
+    elif init == "brlens_init_tree":
+        a += ["--brlens_init", "tree"]
     elif init == "coalescent_init":
         a += ["--coalescent_init", "3.0"]
     elif init == "rate_fixed":
@@ -132,7 +136,7 @@ def to_argv(cfg, data):
 
 
 def key(cfg):
-    return tuple((k, cfg.get(k)) for k in FACTORS) + (tuple(cfg.get("extra") or ()),)
+    return tuple((k, cfg.get(k)) for k in FACTORS) + (tuple(cfg.get("extra") or ()), cfg.get("_data"))
 
 
 # every documented option once, on a configuration it concerns: (sub-commands, base factors, raw extra arguments)
@@ -188,13 +192,42 @@ def frequency_sweep():
     """models x -f {absent, equal, empirical, explicit} x sub-commands: what is estimated vs fixed must follow the model"""
     base = {"categories": 1, "invariant": False, "clock": None, "heights": "ratio", "treeprior": None,
             "grid": None, "cutoff": None, "family": "meanfield", "distribution": "Normal", "init": None}
-    for model in ("JC69", "K80", "HKY", "SYM", "GTR"):
+    for model in ("JC69", "K80", "HKY", "SYM", "GTR", "SRD06"):
         for f in (None, "equal", "empirical", "0.1,0.2,0.3,0.4"):
             for cmd in FACTORS["cmd"]:
                 c = dict(base, cmd=cmd, model=model)
                 if f is not None:
                     c["extra"] = ["--frequencies", f]
                 yield c
+
+
+def derived_starts():
+    """every option that REQUESTS a data-derived starting value, for every sub-command and every combination that uses it
+    (the values are recomputed independently by the harness): regression rate / root height, node heights and branch
+    lengths of the input tree, coalescent maximum-likelihood sizes; `-f empirical` is in frequency_sweep"""
+    base = {"model": "JC69", "categories": 1, "invariant": False, "clock": None, "heights": "ratio", "treeprior": None,
+            "grid": None, "cutoff": None, "family": "meanfield", "distribution": "Normal", "init": None}
+    for cmd in FACTORS["cmd"]:
+        for init in ("brlens_init_tree", "keep"):
+            yield dict(base, cmd=cmd, init=init)
+        for heights in ("ratio", "shift"):
+            for clock in ("strict", "ucln"):
+                for init in ("heights_init_regression", "rate_init_regression", "heights_init_tree", "keep"):
+                    yield dict(base, cmd=cmd, clock=clock, heights=heights, init=init)
+            for tp, init in (("constant", "coalescent_init_tree"), ("skyride", "coalescent_init_tree"),
+                             ("constant", "coalescent_init_constant"), ("exponential", "coalescent_init_constant")):
+                yield dict(base, cmd=cmd, clock="strict", heights=heights, treeprior=tp, init=init)
+        # an empirical start together with a tree-derived one, models whose start comes from pair counts
+        for model in ("HKY", "GTR"):
+            yield dict(base, cmd=cmd, model=model, clock="strict", init="heights_init_tree", extra=["--frequencies", "empirical"])
+        # empirical starts on the alignment where every substitution type has its own count (FASTA order != tree order)
+        for model in ("K80", "HKY", "SYM", "GTR", "SRD06"):
+            yield dict(base, cmd=cmd, model=model, _data="rich", extra=["--frequencies", "empirical"])
+        yield dict(base, cmd=cmd, model="GTR", clock="ucln", treeprior="constant", _data="rich", extra=["--frequencies", "empirical"])
+        # tree-derived starts when the FASTA (= taxa) order is neither the tree's nor the sorted one: dates go BY NAME
+        for init in ("heights_init_regression", "rate_init_regression", "heights_init_tree"):
+            yield dict(base, cmd=cmd, clock="strict", init=init, _data="rich")
+        yield dict(base, cmd=cmd, init="keep", _data="rich")
 
 
 def single_options():
@@ -227,6 +260,7 @@ INIT_NEEDS = {
     "coalescent_init_constant": lambda c: c["clock"] and c["treeprior"] in ("constant", "exponential"),
     "heights_init_tree": lambda c: c["clock"],
     "brlens_init": lambda c: not c["clock"],
+    "brlens_init_tree": lambda c: not c["clock"],
     "keep": lambda c: True,
     "brlenspr_gammadir": lambda c: not c["clock"],
     "coalescent_init": lambda c: c["treeprior"] in ("constant", "exponential", "skyride", "skygrid", "piecewise-constant"),
